@@ -271,8 +271,7 @@ func execConn(w []string) string {
 				ans = append(ans, "null")
 				continue
 			}
-			p, t, v := valgen.ParseTV(tv)
-			ans = append(ans, valgen.HexC(valgen.Canon(p, t, v, b)))
+			ans = append(ans, canonHex(tv, b))
 		}
 	}
 	return strings.Join(ans, " ; ")
